@@ -60,3 +60,175 @@ Theorem C06_gap_arith : forall c k, 0 <= c < 16 -> 1 <= k < 16 ->
   (c + k + 1) mod 16 <> (c + 1) mod 16 /\ ((c + k + 1) mod 16 = c <-> k = 15).
 Proof. exact gap_arith. Qed.
 Print Assumptions C06_gap_arith.
+
+(* ---- packet loss: completeness ("the only units missing are those that lost a packet and, possibly, the unit
+   immediately preceding each gap") ---- *)
+Require Import Proofs.UnitsProofs Proofs.LossComplete.
+From Coq Require Import Sorted.
+
+(* Under the hypotheses of C06_loss_no_splice the accumulator is EXACTLY the reference pos_run, which never looks at a
+   continuity counter or a payload byte, only at the positions of the received packets in the loss-free stream and at
+   their payload_unit_start indicators: a packet at the position following the last one received continues the queue
+   or, if it starts a unit, flushes it; any other packet (after a gap, or the first received) drops what is queued and
+   starts a new queue. *)
+Theorem C06_loss_exact : forall pm x c0 es,
+  (Z.eqb x C_PIDPAT || pm_mem pm x) = false ->
+  Forall (on_stream c0) es -> received_ok None es ->
+  acc_run_a pm x [] es = pos_run [] es.
+Proof. exact loss_run_exact_from_start. Qed.
+Print Assumptions C06_loss_exact.
+
+(* COMPLETENESS.  The received packets are pre ++ u ++ h' :: post where u is a whole unit of the loss-free stream (a
+   unit start followed by continuation packets at consecutive positions: none of its packets was lost) and h', at the
+   next position, starts the next unit (so u does not immediately precede a gap).  Then u is flushed, as one group, by
+   h': the flush events are those of the packets up to the first packet of u, then (u, h'), then those of the rest
+   run from the queue [h'].  No hypothesis on pre and post beyond those of C06_loss_no_splice: any losses, anywhere
+   else. *)
+Theorem C06_loss_complete : forall pm x c0, (Z.eqb x C_PIDPAT || pm_mem pm x) = false ->
+  forall pre u h' post,
+  Forall (on_stream c0) (pre ++ u ++ h' :: post) -> received_ok None (pre ++ u ++ h' :: post) ->
+  unit_shaped u -> run (u ++ [h']) -> pusi (snd h') = true ->
+  snd (acc_run_a pm x [] (pre ++ u ++ h' :: post)) =
+  snd (acc_run_a pm x [] (pre ++ firstn 1 u)) ++ (u, h') :: snd (acc_run_a pm x [h'] post).
+Proof. exact loss_complete. Qed.
+Print Assumptions C06_loss_complete.
+
+(* with C06_loss_no_splice: the groups that begin with a unit start are EXACTLY the units of which every packet and
+   the following unit start were received *)
+Theorem C06_loss_unit_groups_iff : forall pm x c0, (Z.eqb x C_PIDPAT || pm_mem pm x) = false ->
+  forall es g e, Forall (on_stream c0) es -> received_ok None es -> unit_shaped g ->
+  (In (g, e) (snd (acc_run_a pm x [] es)) <->
+   (exists pre post, es = pre ++ g ++ e :: post) /\ run (g ++ [e]) /\ pusi (snd e) = true).
+Proof. exact loss_unit_groups_iff. Qed.
+Print Assumptions C06_loss_unit_groups_iff.
+
+(* each of them exactly once and in stream order: the events are strictly ordered by the position of the flushing packet *)
+Theorem C06_loss_events_sorted : forall pm x c0, (Z.eqb x C_PIDPAT || pm_mem pm x) = false ->
+  forall es, Forall (on_stream c0) es -> received_ok None es ->
+  StronglySorted ev_lt (snd (acc_run_a pm x [] es)).
+Proof. exact loss_events_sorted. Qed.
+Print Assumptions C06_loss_events_sorted.
+
+(* the unit received last stays queued: the end-of-stream drain delivers it *)
+Theorem C06_loss_last_unit : forall pm x c0, (Z.eqb x C_PIDPAT || pm_mem pm x) = false ->
+  forall pre u, Forall (on_stream c0) (pre ++ u) -> received_ok None (pre ++ u) -> unit_shaped u -> run u ->
+  fst (acc_run_a pm x [] (pre ++ u)) = u.
+Proof. exact loss_last_unit. Qed.
+Print Assumptions C06_loss_last_unit.
+
+(* the groups that do NOT begin with a unit start are tails of damaged units: a block of consecutive received
+   continuation packets, followed at once by the unit start that flushed it, and the packet just before the block in
+   the loss-free stream was not received (every packet received earlier lies at least two positions back).  What
+   parseData makes of such a group is finding K2. *)
+Theorem C06_loss_orphans : forall pm x c0, (Z.eqb x C_PIDPAT || pm_mem pm x) = false ->
+  forall es, Forall (on_stream c0) es -> received_ok None es ->
+  Forall (fun ev : list (Z * Packet) * (Z * Packet) =>
+            forall (a : Z * Packet) (g' : list (Z * Packet)), fst ev = a :: g' -> pusi (snd a) = false ->
+            exists pre post : list (Z * Packet), es = pre ++ fst ev ++ snd ev :: post /\
+              Forall (fun e => pusi (snd e) = false) (fst ev) /\ run (fst ev ++ [snd ev]) /\
+              pusi (snd (snd ev)) = true /\ Forall (fun pe => fst pe + 1 < fst a) pre)
+         (snd (acc_run_a pm x [] es)).
+Proof. exact loss_orphans. Qed.
+Print Assumptions C06_loss_orphans.
+
+(* the same at the level of the pool, for a whole stream xs (all PIDs interleaved, null / adaptation-field-only /
+   error-flagged packets included) whose packets of PID x are the received packets: the unit is one of the groups the
+   demultiplexer hands to the parser; the unit received last is delivered by the drain *)
+Theorem C06_loss_complete_pool : forall pm x c0, (Z.eqb x C_PIDPAT || pm_mem pm x) = false ->
+  forall xs pre u h' post,
+  filter (fun s => relevant x (snd s)) xs = map (fun e => (pm, snd e)) (pre ++ u ++ h' :: post) ->
+  Forall (on_stream c0) (pre ++ u ++ h' :: post) -> received_ok None (pre ++ u ++ h' :: post) ->
+  unit_shaped u -> run (u ++ [h']) -> pusi (snd h') = true ->
+  In (x, map snd u) (all_groups xs).
+Proof. exact loss_complete_pool. Qed.
+Print Assumptions C06_loss_complete_pool.
+
+Theorem C06_loss_last_unit_pool : forall pm x c0, (Z.eqb x C_PIDPAT || pm_mem pm x) = false ->
+  forall xs pre u,
+  filter (fun s => relevant x (snd s)) xs = map (fun e => (pm, snd e)) (pre ++ u) ->
+  Forall (on_stream c0) (pre ++ u) -> received_ok None (pre ++ u) -> unit_shaped u -> run u ->
+  In (x, map snd u) (all_groups xs).
+Proof. exact loss_last_unit_pool. Qed.
+Print Assumptions C06_loss_last_unit_pool.
+
+(* the hypotheses are satisfiable: four units at positions 0-2, 3-4, 5-7, 8-9, counter starting at 14 (wraps in the
+   first unit); position 4 lost: units 0-2 and 5-7 are flushed (by the packets at 3 and 8), 8-9 remains for the drain;
+   position 5 (a unit start) lost instead: 0-2 is flushed, the continuation packets 6-7 form an orphan group *)
+Example C06_loss_complete_example :
+  let es := ex_without 4 in
+  let u := firstn 3 (skipn 4 es) in
+  Forall (on_stream 14) es /\ received_ok None es /\
+  es = firstn 4 es ++ u ++ nth 7 es (0, zero_Packet) :: skipn 8 es /\
+  unit_shaped u /\ run (u ++ [nth 7 es (0, zero_Packet)]) /\ pusi (snd (nth 7 es (0, zero_Packet))) = true /\
+  map (fun ev => (map fst (fst ev), fst (snd ev))) (snd (acc_run_a [] 256 [] es)) = [([0; 1; 2], 3); ([5; 6; 7], 8)] /\
+  map fst (fst (acc_run_a [] 256 [] es)) = [8; 9].
+Proof. exact loss_complete_example. Qed.
+
+Example C06_loss_orphan_example :
+  let es := ex_without 5 in
+  Forall (on_stream 14) es /\ received_ok None es /\
+  map (fun ev => (map fst (fst ev), fst (snd ev))) (snd (acc_run_a [] 256 [] es)) = [([0; 1; 2], 3); ([6; 7], 8)].
+Proof. exact loss_orphan_example. Qed.
+
+(* ---- duplicates on PSI PIDs ---- *)
+Require Import Proofs.DupPsi.
+
+(* On PID 0 and on the PIDs of the program map a unit is flushed as soon as its sections are complete, so the queue
+   may be EMPTY when the duplicate of the completing packet p arrives, and the duplicate cannot be recognised.
+   dup_psi_ok pm' p s2 =   the PID is (still) treated as PSI and p starts a unit (a one-packet unit) or is by itself
+                           "complete": the duplicate is flushed at once, as the group [p]
+                        \/ p does not start a unit and the next packet of its PID in s2 that the pool does not ignore,
+                           if any, starts one (streams whose sections start in a unit-start packet, scoping S5): the
+                           duplicate waits in the queue and is flushed as the orphan group [p] by that packet, or
+                           dropped by it, or delivered by the end-of-stream drain.
+   Then the groups of the stream with the duplicate are those of the stream without it, in the same order, with AT MOST
+   ONE extra group [p] inserted: nothing delivered is removed or altered.  For EVERY s1, s2 and program maps. *)
+Theorem C06_dup_psi : forall s1 pm pm' p s2, tei p = false -> has_payload p = true -> dup_psi_ok pm' p s2 ->
+  one_more (pid_of p, [p]) (all_groups (s1 ++ (pm, p) :: s2)) (all_groups (s1 ++ (pm, p) :: (pm', p) :: s2)).
+Proof. exact dup_psi. Qed.
+Print Assumptions C06_dup_psi.
+
+(* while a unit is still pending on the PID after the first copy (p did not complete it) the duplicate is dropped
+   exactly as on PES PIDs: no hypothesis on the rest of the stream, and equality *)
+Theorem C06_dup_psi_pending : forall s1 pm pm' p s2, tei p = false -> has_payload p = true ->
+  qof (fst (pool_run [] (s1 ++ [(pm, p)]))) (pid_of p) <> [] ->
+  all_groups (s1 ++ (pm, p) :: (pm', p) :: s2) = all_groups (s1 ++ (pm, p) :: s2).
+Proof. exact dup_psi_pending. Qed.
+Print Assumptions C06_dup_psi_pending.
+
+(* the hypothesis cannot be dropped: when the packet after the duplicate of a unit's last packet does not start a
+   unit, it is glued to the duplicate ([B; C] is delivered instead of [C]) *)
+Theorem C06_dup_psi_needs_next_start :
+  exists s1 pm pm' p s2, tei p = false /\ has_payload p = true /\ psi_pid pm (pid_of p) = true /\
+    psi_pid pm' (pid_of p) = true /\
+    ~ one_more (pid_of p, [p]) (all_groups (s1 ++ (pm, p) :: s2)) (all_groups (s1 ++ (pm, p) :: (pm', p) :: s2)).
+Proof. exact dup_psi_needs_next_start. Qed.
+Print Assumptions C06_dup_psi_needs_next_start.
+
+(* satisfiable, and the extra group really occurs (two-packet unit A B, its repetition A' B', one-packet unit P) *)
+Example C06_dup_psi_example :
+  dup_psi_ok [] exB [([], exA'); ([], exB'); ([], exP)] /\
+  all_groups [([], exA); ([], exB); ([], exA'); ([], exB'); ([], exP)] =
+    [(0, [exA; exB]); (0, [exA'; exB']); (0, [exP])] /\
+  all_groups [([], exA); ([], exB); ([], exB); ([], exA'); ([], exB'); ([], exP)] =
+    [(0, [exA; exB]); (0, [exB]); (0, [exA'; exB']); (0, [exP])] /\
+  dup_psi_ok [] exP [] /\
+  all_groups [([], exA); ([], exB); ([], exA'); ([], exB'); ([], exP); ([], exP)] =
+    [(0, [exA; exB]); (0, [exA'; exB']); (0, [exP]); (0, [exP])].
+Proof. exact dup_psi_example. Qed.
+(* ---- the accumulator of the theorems above IS the source ----
+   Gen/PoolGen.v is translated from the current /repo/packet_pool.go on every run (go/gen/stateful.go). acc_add — the
+   duplicate test, the discontinuity reset, the flush on a unit start, the early PSI flush, in the order the Go code
+   performs them — is the regenerated packetAccumulator.add, and pool_add (which pool_run / all_groups iterate) is the
+   regenerated packetPool.addUnlocked. A change to either body breaks these proofs. *)
+Require Import Gen.PoolGen Proofs.PoolGenEq.
+
+Theorem C06_acc_is_source : forall pm pid q p,
+  acc_add pm pid q p = packetAccumulator_add is_psi_complete pid (Some (pm_mem pm)) q p.
+Proof. exact acc_add_is_generated. Qed.
+Print Assumptions C06_acc_is_source.
+
+Theorem C06_pool_is_source : forall pm pl p,
+  pool_add pm pl p = packetPool_addUnlocked (gen_get pm) gen_set is_psi_complete pl (Some (pm_mem pm)) p.
+Proof. exact pool_add_is_generated. Qed.
+Print Assumptions C06_pool_is_source.
